@@ -42,7 +42,9 @@ pub fn strategy(kills: usize, enumerate: bool, all_hits: bool) -> impl Strategy<
 
 pub fn strategy_series(kills: usize, enumerate: bool, all_hits: bool, series: usize) -> impl Strategy<Value = Case> {
     (
-        2usize..=4,
+        // mostly small rings; one case in seven has a ring of 10-12 slots (two-digit slot names),
+        // filled so that the victim takes the last slot, wraps to the first, or takes the second
+        prop_oneof![6 => 2usize..=4, 1 => 10usize..=12],
         0usize..=5,
         any::<bool>(),
         vec(1usize..=3, 2..=3),
@@ -55,7 +57,7 @@ pub fn strategy_series(kills: usize, enumerate: bool, all_hits: bool, series: us
             last_baseline_fails: picks[0] % 3 == 0,
             series,
             max_retained: m,
-            baseline_runs: b.min(m + 1),
+            baseline_runs: if m >= 10 { m - 1 + b % 3 } else { b.min(m + 1) },
             checkpoint,
             layers,
             picks,
@@ -64,6 +66,16 @@ pub fn strategy_series(kills: usize, enumerate: bool, all_hits: bool, series: us
             enumerate,
             all_hits,
         })
+}
+
+/// Rings with two-digit slot names whose last slot holds the last completed run: the victim wraps
+/// to slot 1 (`1` is a string prefix of `10`, `11`, `12`).
+pub fn strategy_ring(kills: usize, enumerate: bool) -> impl Strategy<Value = Case> {
+    strategy(kills, enumerate, false).prop_map(|mut c| {
+        c.max_retained = 10 + c.picks[1] as usize % 3;
+        c.baseline_runs = c.max_retained + if c.picks[2] % 4 == 0 { c.max_retained } else { 0 };
+        c
+    })
 }
 
 fn copy_dir(src: &Path, dst: &Path) -> std::io::Result<()> {
@@ -392,7 +404,7 @@ pub fn check(case: &Case, w: usize) -> CheckResult {
 pub fn run(ctx: &mut Ctx) {
     ctx.hang_limit = Duration::from_secs(900);
     ctx.shrink_budget = Duration::from_secs(20);
-    ctx.rule = "max_retained_runs in 2..4, 0..M+1 completed baseline runs, checkpoint present or not, a victim run of 2 commands over 2-3 layered groups with helpers sleeping 20-120 ms. \
+    ctx.rule = "max_retained_runs in 2..4 (one case in seven, and two dedicated phases: 10..12, filled so that the victim wraps from the last two-digit slot to slot 1), 0..M+1 completed baseline runs, checkpoint present or not, a victim run of 2 commands over 2-3 layered groups with helpers sleeping 20-120 ms. \
 enumeration scenarios: the victim is first executed with the point log to learn every guarded (point, hit#) it reaches, then once per entry (quick tier: first, middle and last hit of each point; thorough: every hit) with `crash@hit` (SIGKILL of itself at that point) from a restored \
 copy of the pre-state; timed scenarios: SIGKILL of the monorail process after a generated fraction of the victim's duration; series scenarios: 2-5 crashes in a row at early guarded points without a completed run in between (state compared after each, then a run must succeed). oracle after each crash: `checkpoint show` unchanged; (`result show`, `log show`) equal to \
 the pre-state, or - only for kills at/after the pointer write, and for timed kills - equal to the completed victim's record; then a fresh run exits 0 and `result show` returns its document. \
@@ -407,6 +419,9 @@ evaluations = scenarios; cli_invocations counts the individual executions. non-t
     ctx.drive("enumerate-points", || strategy(0, true, all_hits), n, check);
     let n2 = ctx.n(16, 300);
     ctx.drive("timed-sigkill", || strategy(5, false, false), n2, check);
+    let n4 = ctx.n(3, 40);
+    ctx.drive("two-digit-ring-wrap-enumerate", || strategy_ring(0, true), n4, check);
+    ctx.drive("two-digit-ring-wrap-timed", || strategy_ring(4, false), n4, check);
     let n3 = ctx.n(12, 150);
     ctx.drive("crashes-in-a-row", || strategy_series(0, false, false, 5), n3, check);
 }
